@@ -22,6 +22,8 @@ type Solver struct {
 	Queries int
 	Time    time.Duration
 	Errors  []string
+	Dead    bool
+	Kills   int
 }
 
 func NewSolver(bin string, args []string, log io.Writer) (*Solver, error) {
@@ -69,6 +71,9 @@ func (s *Solver) restart() {
 }
 
 func (s *Solver) Send(text string) {
+	if s.Dead {
+		return
+	}
 	if s.log != nil {
 		io.WriteString(s.log, text)
 	}
@@ -86,35 +91,73 @@ func (s *Solver) readLine() string {
 }
 
 // CheckSat issues (check-sat) and returns "sat", "unsat" or "unknown". Any (error line makes it "error".
+// A watchdog kills a solver that overshoots its timeout; the caller must then Resync.
 func (s *Solver) CheckSat(timeoutMs int) string {
 	t0 := time.Now()
 	s.Send(fmt.Sprintf("(set-option :timeout %d)\n(check-sat)\n", timeoutMs))
 	s.Queries++
-	res := ""
-	for {
-		l := s.readLine()
-		if l == "" {
-			continue
-		}
-		if strings.HasPrefix(l, "(error") {
-			s.Errors = append(s.Errors, l)
+	type ans struct {
+		res string
+		err interface{}
+	}
+	ch := make(chan ans, 1)
+	go func() {
+		defer func() {
+			if r := recover(); r != nil {
+				ch <- ans{"unknown", r}
+			}
+		}()
+		res := ""
+		for {
+			l := s.readLine()
+			if l == "" {
+				continue
+			}
+			if strings.HasPrefix(l, "(error") {
+				s.Errors = append(s.Errors, l)
+				res = "error"
+				continue
+			}
+			if l == "sat" || l == "unsat" || l == "unknown" || l == "timeout" {
+				if res == "" {
+					res = l
+				}
+				if res == "timeout" {
+					res = "unknown"
+				}
+				break
+			}
+			s.Errors = append(s.Errors, "unexpected: "+l)
 			res = "error"
-			continue
 		}
-		if l == "sat" || l == "unsat" || l == "unknown" || l == "timeout" {
-			if res == "" {
-				res = l
-			}
-			if res == "timeout" {
-				res = "unknown"
-			}
-			break
-		}
-		s.Errors = append(s.Errors, "unexpected: "+l)
-		res = "error"
+		ch <- ans{res, nil}
+	}()
+	grace := time.Duration(timeoutMs)*time.Millisecond + time.Duration(timeoutMs/2)*time.Millisecond + 3*time.Second
+	var a ans
+	select {
+	case a = <-ch:
+	case <-time.After(grace):
+		s.cmd.Process.Kill()
+		a = <-ch
+		a.res = "unknown"
+		s.Dead = true
+		s.Kills++
+	}
+	if a.err != nil {
+		s.Dead = true
+		a.res = "unknown"
 	}
 	s.Time += time.Since(t0)
-	return res
+	return a.res
+}
+
+// Revive restarts a dead solver process (the caller re-sends its context).
+func (s *Solver) Revive() {
+	s.Close()
+	s.Dead = false
+	if err := s.start(); err != nil {
+		panic(err)
+	}
 }
 
 // readSexp reads one balanced s-expression.
